@@ -25,6 +25,8 @@ struct ModelSpec {
 static ModelSpec genModel(Rng &rng, bool twoPinOnly) {
   ModelSpec m;
   m.nc = (int)rng.range(1, 12);
+  // magnitude ladder for coordinates and offsets (tolerances are relative to the span)
+  float mag = rng.chance(0.7) ? 1.0f : (float)rng.pick(std::vector<double>{16.0, 1024.0, 16384.0});
   int nn = (int)rng.range(1, 15);
   for (int k = 0; k < nn; ++k) {
     NetSpec t;
@@ -32,11 +34,11 @@ static ModelSpec genModel(Rng &rng, bool twoPinOnly) {
     int d = twoPinOnly ? (t.hasFix ? 1 : 2) : (int)rng.range(1, 5);
     for (int j = 0; j < d; ++j) {
       t.c.push_back((int)rng.range(0, m.nc - 1));
-      t.o.push_back((float)rng.range(-10, 10));
+      t.o.push_back((float)rng.range(-10, 10) * mag);
     }
     t.w = (float)rng.pick(std::vector<double>{0.25, 0.5, 1, 1.5, 2, 2.5, 3, 0.125, 7});
-    t.mn = (float)rng.range(-200, 200);
-    t.mx = t.mn + ((twoPinOnly || rng.chance(0.3)) ? 0 : (float)rng.range(0, 300));
+    t.mn = (float)rng.range(-200, 200) * mag;
+    t.mx = t.mn + ((twoPinOnly || rng.chance(0.3)) ? 0 : (float)rng.range(0, 300) * mag);
     m.span = std::max(m.span, (double)std::max(std::fabs(t.mn), std::fabs(t.mx)));
     m.nets.push_back(t);
   }
